@@ -49,6 +49,8 @@ class Eval:
         self._final_params = []
         self._cur_env = None
         self.loop_args = None     # optional: [element of the 1st for loop met, of the 2nd, ...] to specialise a loop body on one concrete element
+        self.panics = None        # optional list: (path condition, macro) of panics met in statement position
+        self.unroll_literal_lists = False   # opt-in: `for x in <literal list of 0 or 1 elements>` runs its body 0 or 1 times
         self.stateful_map_as_loop = False   # opt-in: `it.map(|x| ..)` whose closure mutates captured locals is evaluated as the loop it is
         self.breaks = None        # optional list: (path condition, environment) at every `break` met
         self._alias_root = None
@@ -306,6 +308,13 @@ class Eval:
                 if loops:
                     _, iterable, pat, body = loops[0]
                     it = self.expr(iterable, env, depth)
+                    if isinstance(it, tuple) and it[:1] == ("list",) and len(it[1]) <= 1 and self.unroll_literal_lists:
+                        # a literal list of at most one element: the body runs exactly that often (specialisation on a singleton input)
+                        for x_ in it[1]:
+                            self.bind_pat(pat, x_, env)
+                            if body is not None:
+                                self.effect(body, env, depth)
+                        return
                     elem = self.loop_args.pop(0) if self.loop_args else ("each", it)
                     self.bind_pat(pat, elem, env)
                     if body is not None:
@@ -358,6 +367,8 @@ class Eval:
             return
         if k == "Block":
             if "mac_src" in e:
+                if e.get("mac") in ("panic", "unreachable", "todo", "unimplemented") and self.panics is not None:
+                    self.panics.append((self.full_conds(), e.get("mac")))
                 return
             self.seq(e.get("stmts", []), e.get("expr"), env, depth, False)
             return
@@ -481,6 +492,8 @@ class Eval:
                 self.out.append((self.full_conds(), tuple(self.loops), w))
                 return w
             if mac in ("unreachable", "panic", "todo", "unimplemented"):
+                if self.panics is not None:
+                    self.panics.append((self.full_conds(), mac))
                 return ("panic", mac)
             if mac == "matches":
                 m = strip(e)
@@ -516,6 +529,8 @@ class Eval:
             return self.field(base, e["name"])
         if k == "Block":
             if "mac_src" in e and e.get("mac") in ("unreachable", "panic", "todo", "unimplemented"):
+                if self.panics is not None:
+                    self.panics.append((self.full_conds(), e["mac"]))
                 return ("panic", e["mac"])
             if "mac_src" in e and e.get("mac") in ("format",):
                 return ("format", hq.macro_template(e["mac_src"]), tuple(self.fmt_args(e, env, depth)))
